@@ -1,4 +1,5 @@
 import OrsoVerif.Lemmas.DistogramState
+import OrsoVerif.Lemmas.DistogramRefine
 import Mathlib.Algebra.Order.Ring.Rat
 import Mathlib.Algebra.Field.Rat
 /-!
@@ -133,6 +134,13 @@ theorem merge_bounds_partial (hs : Built s L1 B1) (ht : Built t L2 B2) :
         rw [htm] at tmax
         exact le_trans (centres_le_max ti htm x h2) (hb mt (List.mem_append.mpr (Or.inr tmax.1)))
 
+/-- **Bulk load above the threshold inserts values inside the data's range**: the midpoint the
+source computes for two consecutive histogram edges lies between them (with the pinned tree's
+`a + b / 2` this is false and the theorem does not check). -/
+theorem bulk_midpoint_between {a b : K} (h : a ≤ b) :
+    a ≤ Gen.DistogramExpr.bulkMid a b ∧ Gen.DistogramExpr.bulkMid a b ≤ b :=
+  bulkMid_between h
+
 /-- **Dump/load preserves bins and bounds** (reference machine and the faithful `load`), the
 loaded cache is coherent — `diffs` are the adjacent gaps and `min_diff` their minimum — and the
 configured maximum becomes the module default. -/
@@ -144,7 +152,7 @@ theorem dump_load_id (s : RState K) (h : Hist K) :
     (load h.bins h.min h.max).minDiff = listMin (gaps h.bins) ∧
     (load h.bins h.min h.max).cap = Gen.Distogram.binCount ∧
     (dumpLoadRef s).cap = Gen.Distogram.binCount :=
-  ⟨rfl, rfl, rfl, rfl, rfl, rfl, rfl, rfl, rfl, rfl⟩
+  ⟨rfl, rfl, rfl, rfl, rfl, rfl, by simp [load, loadDiffs_eq_gaps], by simp [load, loadDiffs_eq_gaps], rfl, rfl⟩
 
 /-- Known finding C13-K01 (model level): `load` forgets the configured maximum, so a histogram
 dumped with more bins than the module default is above its limit as soon as it is loaded. -/
@@ -158,6 +166,90 @@ histogram, reports minimum 2 although 1 was inserted. -/
 theorem merge_bounds_not_exact :
     (mergeRef (RState.init 1 : RState ℚ)
       (updateRef (updateRef (RState.init 1) 1 1) 3 1).bins).min = some 2 := by
+  decide +kernel
+
+/-! ## Stage 2: the faithful machine (cached differences, exact hit, in-place shortcut) -/
+
+/-- **The arithmetic of the source is the arithmetic of the reference** (definitions regenerated from
+the AST of `distogram/__init__.py` on every run): `_trim` stores the weighted centroid and the sum of
+counts; `_trim_in_place` stores the same centroid for (neighbour, new value) in either order. -/
+theorem source_merge_arithmetic (v1 f1 v2 f2 : K) :
+    Gen.DistogramExpr.trimCentre v1 f1 v2 f2 = (v1 * f1 + v2 * f2) / (f1 + f2) ∧
+    Gen.DistogramExpr.trimCount v1 f1 v2 f2 = f1 + f2 ∧
+    Gen.DistogramExpr.inPlaceCentre v1 f1 v2 f2 = centroid v1 f1 v2 f2 ∧
+    Gen.DistogramExpr.inPlaceCentre v1 f1 v2 f2 = centroid v2 f2 v1 f1 ∧
+    Gen.DistogramExpr.inPlaceCount v1 f1 v2 f2 = f1 + f2 :=
+  ⟨rfl, rfl, (inPlace_centre_eq v1 f1 v2 f2).1, (inPlace_centre_eq v1 f1 v2 f2).2.1, rfl⟩
+
+/-- **cache_coherent**: after every operation of the faithful machine — any tree of successful
+`update`, bare `merge`, `+`, bulk load and dump/load — whenever `diffs` is set the histogram is not
+empty, `diffs` are exactly the adjacent differences of the bins and `min_diff` is their minimum. -/
+theorem cache_coherent {h : Hist K} (hb : FBuilt h) :
+    ∀ d, h.diffs = some d → h.bins ≠ [] ∧ d = gaps h.bins ∧
+      (match h.minDiff with
+       | none => d = []
+       | some m => m ∈ d ∧ ∀ x ∈ d, m ≤ x) := by
+  intro d hd
+  obtain ⟨a, b, c⟩ := fbuilt_coherent hb d hd
+  refine ⟨a, b, ?_⟩
+  cases hm : h.minDiff with
+  | none => rw [hm] at c; exact c
+  | some m => rw [hm] at c; exact c
+
+/-- One step of the invariant: a successful `update` of a coherent state is coherent and keeps the limit. -/
+theorem update_keeps_cache_coherent {h h' : Hist K} {v c : K} (hc : Coherent h) (hok : update h v c = .ok h') :
+    Coherent h' ∧ h'.cap = h.cap :=
+  coherent_update hc hok
+
+/-- **`_trim` refines the reference trim** for any number of turns: with a coherent cache
+`h.diffs.index(h.min_diff)` is the first closest pair and the stored bin is `mergeAt` of it — ties included. -/
+theorem trim_refines_reference (fuel : Nat) {h h' : Hist K} (hc : Coherent h) (hok : trim fuel h = .ok h') :
+    h'.bins = trimRef h.cap fuel h.bins :=
+  trim_refines fuel hc hok
+
+/-- **The exact-hit branch refines the reference insertion.** -/
+theorem exact_hit_refines_reference {bins : List (K × K)} {v c vi fi : K} (hne : bins ≠ [])
+    (hi : bins.Pairwise (fun a b => a.1 < b.1)) (h1 : ∀ b ∈ bins, 1 ≤ b.2)
+    (hb : bins[(locate bins v).2]? = some (vi, fi)) (he : vi = v) :
+    bins.set (locate bins v).2 (vi, fi + c) = insertRef v c bins :=
+  exactHit_refines hne hi h1 hb he
+
+/-- **Insert + `_trim` refines the reference update** — no uniqueness hypothesis: both machines merge the
+first closest pair. -/
+theorem insert_trim_refines_reference {h h' : Hist K} {v c : K} (hc : Coherent h)
+    (hi : h.bins.Pairwise (fun a b => a.1 < b.1)) (h1 : ∀ b ∈ h.bins, 1 ≤ b.2)
+    (hnohit : ∀ vi fi, h.bins[(locate h.bins v).2]? = some (vi, fi) → vi ≠ v)
+    (hok : insertTrim h (locate h.bins v).1 (locate h.bins v).2 v c = .ok h') :
+    h'.bins = (updateRef h.toR v c).bins :=
+  insertTrim_refines hc hi h1 hnohit hok
+
+/-- **refines_reference — PARTIAL.**
+Full statement (the property): `UniqueClosest history → faithful.bins = reference.bins`.
+Proved: a successful `update` on a coherent state with increasing centres, counts ≥ 1 and at most
+`cap` bins produces exactly the reference's bins on the exact-hit path and on the insert + `_trim` path
+(with or without ties), i.e. *unless* it went through the in-place shortcut `_trim_in_place`.
+Missing for that branch: the position argument — when `diff < min_diff` the pair (new value, chosen
+neighbour) is the first closest pair of the list after insertion, which needs `diff1 ≠ diff2` (the new
+value is not equidistant from its neighbours; this is where uniqueness enters) — its arithmetic is
+`source_merge_arithmetic`.  That branch is carried by the correspondence run and the `reference` oracle. -/
+theorem refines_reference_partial {h h' : Hist K} {v c : K} (hc : Coherent h)
+    (hi : h.bins.Pairwise (fun a b => a.1 < b.1)) (h1 : ∀ b ∈ h.bins, 1 ≤ b.2)
+    (hlen : h.bins.length ≤ h.cap) (hok : update h v c = .ok h') :
+    h'.bins = (updateRef h.toR v c).bins ∨
+    ∃ hd ib, (hd = h ∨ computeDiffs h = .ok hd) ∧ 0 < ib ∧ trimInPlace hd v c ib = .ok h' :=
+  update_refines_partial hc hi h1 hlen hok
+
+/-- Non-vacuity of stage 2: a faithful history with an in-place merge, an exact hit, an insert + trim and
+a dump/load succeeds, is `FBuilt`, and equals the reference on it. -/
+example :
+    ((update (Hist.init 3 : Hist ℚ) 0 1).bind fun h1 =>
+     (update h1 10 1).bind fun h2 =>
+     (update h2 20 1).bind fun h3 =>
+     (update h3 11 1).bind fun h4 =>      -- in place into bin 1
+     (update h4 20 2).bind fun h5 =>      -- exact hit
+     (update h5 40 1).bind fun h6 =>      -- append + trim
+     .ok (h6.bins, h6.diffs, h6.minDiff))
+      = .ok ([(0, 1), (81 / 5, 5), (40, 1)], some [81 / 5, 119 / 5], some (81 / 5)) := by
   decide +kernel
 
 /-- Non-vacuity: a concrete history with an update sequence that trims, a `+`, a bulk load and a
